@@ -13,6 +13,12 @@ S = "pkg/server"
 PROPS = {
     "C13": {
         "level": "exploration",
+        "claim": ("Generated pattern lists (grammar of recognised shapes and near misses), community values and set edits; "
+                  "every Evaluate result under any/all/invert is compared with Go's regexp on the canonical text. Exploration: "
+                  "the evidence reports cases, distinct non-trivial cases and a label histogram; absence of a divergence is "
+                  "evidence for the explored grammar only."),
+        "note": "Trusts Go's regexp package and the String()/List() renderings as the canonical texts.",
+        "technique": "property-based testing (rapid), differential against a regexp reference, shrunk replay files",
         "rule": ("rapid draws a pattern list from a grammar of matcher shapes and near misses, routes with 0-4 "
                  "communities, and 0-3 set edits; a case is non-trivial when at least one pattern was promoted to a "
                  "non-regexp matcher (observed white-box) and, over its routes, at least one pattern matched and one "
@@ -23,6 +29,25 @@ PROPS = {
             {"pkg": T, "test": "TestVerifC13_std", "quick": (6, 2500), "thorough": (6, 60000)},
             {"pkg": T, "test": "TestVerifC13_ext", "quick": (5, 8000), "thorough": (5, 150000)},
             {"pkg": T, "test": "TestVerifC13_large", "quick": (5, 6000), "thorough": (5, 150000)},
+        ],
+    },
+    "C14": {
+        "level": "exploration",
+        "claim": ("Round trip (NEW -> 2-octet wire form -> parsed under Use2ByteAS -> reconstruction) over generated RFC-valid "
+                  "AS_PATH/AGGREGATOR values must return the original (confed 4-octet members excepted) and the 2-octet form "
+                  "must re-parse and validate; for independently generated (AS_PATH, AS4_PATH) pairs the reconstruction is "
+                  "checked against invariants (no empty/over-long segment, never longer, longer AS4_PATH ignored)."),
+        "note": "Trusts the BGP parser for wire validity of the 2-octet form; bounded to <=6 segments per path.",
+        "technique": "property-based testing (rapid): round-trip and invariant oracles",
+        "rule": ("rapid draws (i) an RFC-valid AS_PATH (leading confed run, then SEQ/SET segments of 1..255 members, "
+                 "sizes biased to 1-4/254/255, 2- and 4-octet members incl. AS_TRANS) with optional AGGREGATOR, or (ii) an "
+                 "independent (2-octet AS_PATH, arbitrary AS4_PATH) pair with AGGREGATOR/AS4_AGGREGATOR; non-trivial when "
+                 "the path has a 4-octet member and >=2 segments, or a 255-member segment, or a leading SET (i), or an "
+                 "AS4_PATH together with >=2 AS_PATH segments or a non-SEQUENCE AS4 segment (ii); distinct by case hash"),
+        "assumptions": ["adjacent AS_SEQUENCE segments are compared as one sequence (segment splitting carries no meaning)",
+                        "path length = SEQUENCE members + 1 per SET, confederation segments not counted"],
+        "units": [
+            {"pkg": T, "test": "TestVerifC14", "quick": (8, 40000), "thorough": (16, 400000)},
         ],
     },
 }
